@@ -493,6 +493,12 @@ func genC10(rt *rapid.T) *C10Case {
 				tail[4] ^= 0x01
 			}
 		}
+		if first >= 0x80 && tl >= 20 && rapid.Bool().Draw(rt, "tailCookie") {
+			// first two bits 10/11 cannot begin a frame - also when the rest imitates a STUN
+			// header perfectly (cookie in place, a length that fits)
+			binary.BigEndian.PutUint16(tail[2:4], uint16((tl-20)&^3)) //nolint:gosec
+			binary.BigEndian.PutUint32(tail[4:8], ref.MagicCookie)
+		}
 		c.Tail = hex.EncodeToString(tail)
 		total += tl
 	}
